@@ -49,6 +49,7 @@ var parseReasons = map[string][]string{
 // reasons chosen behind the parsing layer (not modelled): when the real handler leaves with one of
 // these, the backend decided before / instead of the parser and there is nothing to compare.
 var backendReasons = map[string][]string{
+	"version":    {"VerSameNonce", "VerOurNonce"},
 	"headers":    {"BadHeader"},
 	"cmpctblock": {"BadCmpct"},
 	"block":      {"BadBlock", "BadUnreqBlock"},
@@ -116,7 +117,8 @@ type Harness struct {
 	rn *Runner
 	o  *vlib.Oracle
 
-	cwd string // scratch working directory (removed at the end)
+	cwd   string // scratch working directory (removed at the end)
+	ncase int
 }
 
 const ruleText = "one case = (command, payload bytes, protocol state[, preceding messages / repetitions]); distinct = distinct (command,state,payload); block bodies cut at and inside every transaction (child process) first, then the corpus of edge inputs and defect witnesses, per-command structured generators with lying counts / CompactSize forms / wrapping counts (cmpctblock→blocktxn histories with 1-4 unresolved transactions answered with missing / repeated / unrequested / reordered transactions), a mutated copy of every third case, raw wire bytes for FetchMessage, boundary lengths, addr/getaddr against a peers database at its record limit, a peer that does not read its socket (request histories up to the 16 MB send-buffer limit, and every replying command with the buffer preset around that limit), concurrent getdata/inv processing against inv routing in a child process, library entry points"
@@ -124,6 +126,7 @@ const explText = "Real handlers (client/network via verif hook, on a synthetic c
 
 // finish removes the scratch directories (vlib's Finish exits the process) and reports.
 func (h *Harness) finish(rule, expl string, wedged bool) {
+	profStop()
 	if h.o != nil {
 		h.o.Close()
 	}
@@ -193,7 +196,8 @@ func (h *Harness) headerAccepted(hdr []byte) bool {
 	return false
 }
 
-func (h *Harness) key(cs Case, o Obs) string {
+func (h *Harness) key(cs Case, s *stream) string {
+	o := s.o
 	if strings.HasPrefix(cs.Note, "W:") {
 		return cs.Note[2:]
 	}
@@ -202,6 +206,13 @@ func (h *Harness) key(cs Case, o Obs) string {
 		what = "lock:" + strings.Join(o.Locks, "+")
 		if len(o.Locks) == 0 {
 			what = "slow"
+			if s.run && !s.ro.Closed {
+				what = "leak"
+			} else if s.run && s.ro.InProgress != 0 {
+				what = "inprogress"
+			} else if s.run && s.ro.Ticket != 0 {
+				what = "ticket"
+			}
 		}
 		if o.Hang {
 			what = "hang:" + strings.Join(o.Locks, "+")
@@ -211,12 +222,33 @@ func (h *Harness) key(cs Case, o Obs) string {
 	if i := strings.LastIndex(w, "."); i >= 0 {
 		w = w[i+1:]
 	}
+	if s.run && w == "" {
+		w = "Run"
+	}
 	return cs.Cmd + ":" + what + ":" + w
 }
 
-// One runs a case through the real code and the model and records the verdicts.
+// stream is what one delivery of a case (through the real Run, or to the handler directly) produced.
+type stream struct {
+	run       bool // delivered through the real OneConnection.Run over a net.Pipe
+	o         Obs
+	ro        RunObs
+	conn      *network.OneConnection
+	st        network.VerifState
+	accepted  bool // cmpctblock: the header was acceptable when the message was delivered
+	collector bool // blocktxn: a collector existed for the named block when the message was delivered
+}
+
+func (s *stream) name() string {
+	if s.run {
+		return "run"
+	}
+	return "direct"
+}
+
+// One runs a case through the real code - first stream: the real Run over a pipe, second stream: the
+// handler called directly - and through the model, and records the verdicts.
 func (h *Harness) One(cs Case) {
-	r := h.r
 	if cs.Cmd == "@conc" {
 		if cs.Conc != nil {
 			h.concOne(cs)
@@ -229,11 +261,205 @@ func (h *Harness) One(cs Case) {
 		}
 		return
 	}
+	h.ncase++
+	order := []bool{true, false}
+	if h.ncase%2 == 0 {
+		order = []bool{false, true} // global state (headers seen, blocks pending) is shared: alternate who goes first
+	}
+	for _, run := range order {
+		if run && (!h.rn.runnable(cs) || os.Getenv("C18_NORUN") != "") {
+			continue
+		}
+		if !run && (cs.has("enc") || os.Getenv("C18_NODIRECT") != "") {
+			continue // an encrypted message from a peer nobody trusts exists on the wire only
+		}
+		if !h.deliver(cs, run) {
+			return
+		}
+	}
+}
+
+// deliver runs one stream of a case and judges it; false: the run has to stop (a handler hangs).
+func (h *Harness) deliver(cs Case, run bool) bool {
+	r := h.r
 	pl := cs.payload()
+	s := &stream{run: run}
+	if cs.Cmd == "cmpctblock" && len(pl) >= 80 {
+		s.accepted = h.headerAccepted(pl[:80])
+	}
+	if run {
+		s.o, s.ro, s.conn = h.rn.DoRun(cs)
+		s.st, s.collector = h.rn.lastRunState, h.rn.lastRunCollector
+	} else {
+		s.o = h.rn.Do(cs)
+		s.conn, s.st, s.collector = h.rn.conn, h.rn.lastState, h.rn.lastCollector
+	}
+	o := s.o
+	if thr, _ := strconv.Atoi(os.Getenv("C18_SLOW")); thr > 0 && o.Ms > float64(thr) {
+		fmt.Fprintf(os.Stderr, "SLOW %s %s %s %d bytes %.0f ms branch=%s\n", s.name(), cs.Note, cs.Cmd, len(pl), o.Ms, o.Branch)
+	}
+	if !o.Hang { // (a handler that is stuck may hold MutexRcv: nothing of the package is touched any more)
+		housekeeping()
+	}
+	kind := "cmd:"
+	if run {
+		kind = "run:"
+	}
+	r.Eval(kind+cs.Cmd, s.name()+cs.Cmd+cs.Pre+cs.Pl+fmt.Sprint(len(cs.Seq)))
+	if !run || !h.rn.runnable(cs) {
+		r.Hit("src:" + strings.SplitN(cs.Note, ":", 2)[0])
+		if cs.has("nover") {
+			r.Hit("state:before-version")
+		} else {
+			r.Hit("state:after-version")
+		}
+		r.Hit(fmt.Sprintf("len:%s", lenClass(len(pl))))
+	}
+	if run {
+		if s.ro.Handshake {
+			r.Hit("run:handshake-through-Run")
+		} else {
+			r.Hit("run:state-preset")
+		}
+		if s.ro.Encrypted {
+			r.Hit("run:aes-gcm-channel")
+		}
+		if s.ro.PeerHungUp {
+			r.Hit("run:ended-by-peer-hangup")
+		} else {
+			r.Hit("run:ended-by-node")
+		}
+	}
+	r.Sample(map[string]interface{}{"stream": s.name(), "cmd": cs.Cmd, "pre": cs.Pre, "len": len(pl), "pl": clip(cs.Pl), "branch": o.Branch, "ban": o.Ban, "panic": o.Panic})
+
+	// ---- 1. the property on the real code
+	replay := map[string]interface{}{"case": cs, "observed": o, "stream": s.name()}
+	if run {
+		replay["run"] = s.ro
+	}
+	slowMs := 4000.0
+	if run {
+		slowMs = 8000
+	}
+	leak := run && !o.Hang && (!s.ro.Closed || s.ro.InProgress != 0 || s.ro.Ticket != 0)
+	if o.Panic != "" || len(o.Locks) > 0 || o.Hang || o.Ms > slowMs || leak {
+		what := fmt.Sprintf("%s payload of %d bytes", cs.Cmd, len(pl))
+		if run {
+			what += " delivered to the real Run over a pipe"
+			if s.ro.Encrypted {
+				what += " (through the AES-GCM channel of an xauth key exchange)"
+			}
+		}
+		what += ": "
+		if o.Panic != "" {
+			what += "handler panics (" + o.Panic + " in " + o.Where + ")"
+			if run {
+				what += " - caught by Run's recover(), which ends Run without its tear-down"
+			}
+		}
+		if len(o.Locks) > 0 && !o.Hang {
+			what += " locks still held after return: " + strings.Join(o.Locks, ",")
+		}
+		if o.Hang {
+			if run {
+				what += fmt.Sprintf("Run does not return after the peer hung up (watchdog after %.0f ms); locks held while it is stuck: %s", o.Ms, strings.Join(o.Locks, ","))
+			} else {
+				what += fmt.Sprintf("handler does not return (watchdog after %.0f ms); locks held while it is stuck: %s", o.Ms, strings.Join(o.Locks, ","))
+			}
+			if cs.slow() {
+				what += fmt.Sprintf(" [peer that does not read its socket: %d message(s) before this one, %d unsent bytes preset]", len(cs.Seq)+cs.Rep, maxInt(cs.sbfill(), 0))
+			}
+		} else if o.Ms > slowMs {
+			what += fmt.Sprintf(" ran %.0f ms", o.Ms)
+		}
+		if leak {
+			if !s.ro.Closed {
+				what += fmt.Sprintf(" Run returned WITHOUT closing the socket, i.e. not through its tear-down (writing_thread_done.Wait, InProgress--, ban bookkeeping, Conn.Close): %d goroutine(s) still in writing_thread, the file descriptor stays open, the connection is neither banned nor marked broken", s.ro.Writers)
+			}
+			if s.ro.InProgress != 0 {
+				what += fmt.Sprintf(" BlocksToGet in-progress counts not restored after the connection ended (sum %d)", s.ro.InProgress)
+			}
+			if s.ro.Ticket != 0 {
+				what += " the global getmp ticket is still taken after the connection ended"
+			}
+		}
+		r.PropFail(h.key(cs, s), what, replay)
+		r.Hit("real:FAIL")
+		if o.Hang {
+			// the goroutine is still inside the handler (possibly holding locks): the state of the
+			// process can no longer be trusted, report what was found and stop
+			h.finish(ruleText+" (run stopped at the first handler that did not return)", explText, true)
+			return false
+		}
+		return true
+	}
+	if run {
+		r.Hit("run:ban=" + o.Ban)
+		if s.ro.SetupFailed != "" {
+			r.TieFail("run:setup:"+cs.Cmd, "the connection could not be brought into the state the case asks for: "+s.ro.SetupFailed, replay)
+			return true
+		}
+	} else {
+		r.Hit("real:ban=" + o.Ban)
+	}
+
+	// ---- 1b. a peer that does not read: the only things that may happen when a reply does not fit are
+	//          the ban SendBufferOverflow, or nothing queued at all (no model of the send path: the
+	//          predicate is evaluated on the real connection state)
+	if cs.slow() {
+		h.slowVerdict(cs, o, replay)
+		return true
+	}
+
+	// ---- 1c. the Run stream has FetchMessage in front of the handlers: a payload over the per-command limit
+	//          (the mutated stream produces them) must be refused there, whatever the handler would say
+	if run && cs.Cmd != "@wire" {
+		lim := int(network.VerifMaxMsgSize(cs.Cmd))
+		if s.ro.Encrypted {
+			lim += 28 // nonce + tag of the AES-GCM frame
+			pl = append(pl, make([]byte, 28)...)
+		}
+		if len(pl) > lim {
+			if o.Ban != "Big-"+cs.Cmd {
+				r.TieFail("run:limit:"+cs.Cmd, fmt.Sprintf("%s payload of %d bytes is over the limit of %d: expected ban Big-%s, got %q", cs.Cmd, len(pl), lim, cs.Cmd, o.Ban), replay)
+			} else {
+				r.Hit("run:over-the-size-limit")
+				r.TieOK()
+			}
+			return true
+		}
+		pl = cs.payload()
+	}
+
+	// ---- 2. the model
+	tieKey := func(k string) string {
+		if run {
+			return "run:" + k
+		}
+		return k
+	}
+	if cs.Cmd == "@wire" {
+		h.compareWire(cs, s, replay)
+		return true
+	}
+	if cs.has("nover") && cs.Cmd != "version" {
+		if (!run && o.Branch != "nover") || o.Misbehave != 100 || o.Ban != "" {
+			r.TieFail(tieKey("gate:"+cs.Cmd), fmt.Sprintf("message before version was not answered with Misbehave(NoVer…,100): branch=%q misbehave=%d ban=%q", o.Branch, o.Misbehave, o.Ban), replay)
+		} else {
+			r.TieOK()
+		}
+		return true
+	}
+	if !cs.has("nover") && cs.Cmd == "version" {
+		if (!run && o.Branch != "version-again") || o.Misbehave != 100 {
+			r.TieFail(tieKey("gate:version"), "second version not refused", replay)
+		} else {
+			r.TieOK()
+		}
+		return true
+	}
 	envNtx := -1
 	authGot := "0"
-	accepted := false
-	collector := false
 	switch cs.Cmd {
 	case "getblocktxn":
 		if len(pl) >= 32 {
@@ -244,161 +470,87 @@ func (h *Harness) One(cs Case) {
 				}
 			}
 		}
-	case "cmpctblock":
-		if len(pl) >= 80 {
-			accepted = h.headerAccepted(pl[:80])
-		}
 	case "xauth":
 		for _, m := range cs.Seq {
 			if m.Cmd == "xauth" {
 				authGot = "1"
 			}
 		}
-	}
-	o := h.rn.Do(cs)
-	if o.Ms > 200 && os.Getenv("C18_SLOW") != "" {
-		fmt.Fprintf(os.Stderr, "SLOW %s %s %d bytes %.0f ms branch=%s\n", cs.Note, cs.Cmd, len(pl), o.Ms, o.Branch)
-	}
-	if cs.Cmd == "blocktxn" {
-		collector = h.rn.lastCollector
-	}
-	if !o.Hang { // (a handler that is stuck may hold MutexRcv: nothing of the package is touched any more)
-		housekeeping()
-	}
-	r.Eval("cmd:"+cs.Cmd, cs.Cmd+cs.Pre+cs.Pl+fmt.Sprint(len(cs.Seq)))
-	r.Hit("src:" + strings.SplitN(cs.Note, ":", 2)[0])
-	if cs.has("nover") {
-		r.Hit("state:before-version")
-	} else {
-		r.Hit("state:after-version")
-	}
-	r.Hit(fmt.Sprintf("len:%s", lenClass(len(pl))))
-	r.Sample(map[string]interface{}{"cmd": cs.Cmd, "pre": cs.Pre, "len": len(pl), "pl": clip(cs.Pl), "branch": o.Branch, "ban": o.Ban, "panic": o.Panic})
-
-	// ---- 1. the property on the real code
-	replay := map[string]interface{}{"case": cs, "observed": o}
-	if o.Panic != "" || len(o.Locks) > 0 || o.Hang || o.Ms > 4000 {
-		what := fmt.Sprintf("%s payload of %d bytes: ", cs.Cmd, len(pl))
-		if o.Panic != "" {
-			what += "handler panics (" + o.Panic + " in " + o.Where + ")"
+		if run && s.ro.Encrypted {
+			authGot = "1" // the key exchange was this connection's one xauth
 		}
-		if len(o.Locks) > 0 && !o.Hang {
-			what += " locks still held after return: " + strings.Join(o.Locks, ",")
-		}
-		if o.Hang {
-			what += fmt.Sprintf("handler does not return (watchdog after %.0f ms); locks held while it is stuck: %s", o.Ms, strings.Join(o.Locks, ","))
-			if cs.slow() {
-				what += fmt.Sprintf(" [peer that does not read its socket: %d message(s) before this one, %d unsent bytes preset]", len(cs.Seq)+cs.Rep, maxInt(cs.sbfill(), 0))
-			}
-		} else if o.Ms > 4000 {
-			what += fmt.Sprintf(" handler ran %.0f ms", o.Ms)
-		}
-		r.PropFail(h.key(cs, o), what, replay)
-		r.Hit("real:FAIL")
-		if o.Hang {
-			// the goroutine is still inside the handler (possibly holding locks): the state of the
-			// process can no longer be trusted, report what was found and stop
-			h.finish(ruleText+" (run stopped at the first handler that did not return)", explText, true)
-		}
-		return
 	}
-	r.Hit("real:ban=" + o.Ban)
-
-	// ---- 1b. a peer that does not read: the only things that may happen when a reply does not fit are
-	//          the ban SendBufferOverflow, or nothing queued at all (no model of the send path: the
-	//          predicate is evaluated on the real connection state)
-	if cs.slow() {
-		h.slowVerdict(cs, o, replay)
-		return
-	}
-
-	// ---- 2. the model
-	if cs.Cmd == "@wire" {
-		h.compareWire(cs, o, replay)
-		return
-	}
-	if cs.has("nover") && cs.Cmd != "version" {
-		if o.Branch != "nover" || o.Misbehave != 100 {
-			r.TieFail("gate:"+cs.Cmd, "message before version was not answered with Misbehave(NoVer…,100): "+o.Branch, replay)
-		} else {
-			r.TieOK()
-		}
-		return
-	}
-	if !cs.has("nover") && cs.Cmd == "version" {
-		if o.Branch != "version-again" {
-			r.TieFail("gate:version", "second version not refused", replay)
-		} else {
-			r.TieOK()
-		}
-		return
-	}
-	auth := "0"
-	if cs.has("auth") {
+	auth, trusted := "0", "0"
+	if cs.has("auth") || cs.has("trusted") {
 		auth = "1"
 	}
-	m := parseModel(h.o.MustAsk(fmt.Sprintf("h 1 %s %d %s %s %s", cs.Cmd, envNtx, authGot, auth, vlib.Hex(pl))))
+	if cs.has("trusted") {
+		trusted = "1"
+	}
+	if run && s.ro.Encrypted && !cs.has("trusted") {
+		auth = "0" // the key exchange of a peer whose key is not listed clears Authorized (ver.go AuthRvcd)
+	}
+	req := fmt.Sprintf("h 1 %s %d %s %s %s %s", cs.Cmd, envNtx, authGot, auth, trusted, vlib.Hex(pl))
+	m := parseModel(h.o.MustAsk(req))
 	replay["model"] = m.RawRep
-	r.Hit("model:" + m.Kind + ":" + m.Tag)
+	if !run {
+		r.Hit("model:" + m.Kind + ":" + m.Tag)
+	}
 	if m.Kind == "bad" || m.RawRep == "bad-op" {
 		r.TieFail("oracle:"+cs.Cmd, "oracle refused the request", replay)
-		return
+		return true
 	}
 	fail := func(why string) {
-		r.TieFail("tie:"+cs.Cmd+":"+m.Kind+":"+m.Tag, cs.Cmd+": "+why+" (model: "+clip(m.RawRep)+"; real: branch="+o.Branch+" ban="+o.Ban+fmt.Sprintf(" misbehave=%d sent=%v", o.Misbehave, o.Sent)+")", replay)
+		r.TieFail(tieKey("tie:"+cs.Cmd+":"+m.Kind+":"+m.Tag), cs.Cmd+" ["+s.name()+" stream]: "+why+" (model: "+clip(m.RawRep)+"; real: branch="+o.Branch+" ban="+o.Ban+fmt.Sprintf(" misbehave=%d sent=%v", o.Misbehave, o.Sent)+")", replay)
 	}
 	if m.Locks != "-" {
 		fail("model says locks are held at exit but the real handler returned with all locks free")
-		return
+		return true
 	}
 	reasons := parseReasons[cs.Cmd]
 	if o.Ban != "" && in(o.Ban, backendReasons[cs.Cmd]) && m.Kind != "panic" {
 		r.Hit("tie:backend-decided:" + o.Ban)
 		r.TieOK()
-		return
+		return true
 	}
 	switch m.Kind {
 	case "panic":
 		fail("model panics, real handler does not")
-		return
+		return true
 	case "reject":
 		want := m.Tag
 		if cs.Cmd == "version" {
 			want = "Ver" + want
 		}
 		switch {
-		case cs.Cmd == "cmpctblock" && !accepted && m.Tag != "CmpctBlkErrA":
+		case cs.Cmd == "cmpctblock" && !s.accepted && m.Tag != "CmpctBlkErrA":
 			// the header was refused before parsing started: backend outcome, nothing to compare
-		case cs.Cmd == "blocktxn" && m.Tag == "BlkTxnErrTx" && (!collector || o.Ban == ""):
+		case cs.Cmd == "blocktxn" && m.Tag == "BlkTxnErrTx" && (!s.collector || o.Ban == ""):
 			// no collector, block already complete, or an unknown short id first: the handler left the
 			// transaction loop silently before it reached the undecodable transaction
 		case m.Tag == "TxRejectedNoInputs":
 			if o.Misbehave < 100 {
 				fail("expected Misbehave(TxRejectedNoInputs)")
-				return
-			}
-		case m.Tag == "GetBlockTxnIdx+" || m.Tag == "GetBlockTxnERR" || m.Tag == "GetBlockTxnEmpty" || m.Tag == "GetBlockTxnShort":
-			if o.Ban != want {
-				fail("reject reason differs")
-				return
+				return true
 			}
 		default:
 			if o.Ban != want {
 				fail("reject reason differs")
-				return
+				return true
 			}
 		}
 	case "ok":
 		if o.Ban != "" && in(o.Ban, reasons) && !(cs.Cmd == "version") {
 			fail("real handler rejected at the parsing layer, model accepts")
-			return
+			return true
 		}
-		if why := h.compareFields(cs, o, m, accepted, collector); why != "" {
+		if why := h.compareFields(cs, s, m); why != "" {
 			fail(why)
-			return
+			return true
 		}
 	}
 	r.TieOK()
+	return true
 }
 
 // slowVerdict: what the send path must have done for a peer that does not read.
@@ -464,11 +616,14 @@ func lenClass(n int) string {
 }
 
 // compareFields checks what the real code exposes of the parsed data against the model's fields.
-func (h *Harness) compareFields(cs Case, o Obs, m Model, accepted, collector bool) string {
-	c := h.rn.conn
+func (h *Harness) compareFields(cs Case, s *stream, m Model) string {
+	c, o, accepted := s.conn, s.o, s.accepted
+	if c == nil {
+		return "no connection state to compare with"
+	}
 	switch cs.Cmd {
 	case "version":
-		if o.Branch != "version" {
+		if (!s.run && o.Branch != "version") || o.Ban != "" {
 			return "model accepts the version message, real code refused: " + o.Ban
 		}
 		n := c.Node
@@ -511,16 +666,22 @@ func (h *Harness) compareFields(cs Case, o Obs, m Model, accepted, collector boo
 			}
 		}
 	case "getblocktxn":
+		var reps []network.VerifMsg
+		for _, x := range o.sentRaw {
+			if x.Cmd == "blocktxn" {
+				reps = append(reps, x)
+			}
+		}
 		if m.Tag == "getblocktxn" {
-			if len(o.sentRaw) != 1 || o.sentRaw[0].Cmd != "blocktxn" {
+			if len(reps) != 1 || (!s.run && len(o.sentRaw) != 1) {
 				return "no blocktxn reply"
 			}
-			rp := o.sentRaw[0].Pl
+			rp := reps[0].Pl
 			// reply = hash, CompactSize(indexes_length as sent), the transactions
 			if len(rp) < 33 || string(rp[:32]) != string(cs.payload()[:32]) {
 				return "blocktxn reply names another block"
 			}
-		} else if len(o.Sent) != 0 {
+		} else if len(reps) != 0 || (!s.run && len(o.Sent) != 0) {
 			return "reply sent for an unknown block"
 		}
 	case "getheaders":
@@ -539,6 +700,27 @@ func (h *Harness) compareFields(cs Case, o Obs, m Model, accepted, collector boo
 			return ""
 		}
 	case "blocktxn":
+	case "authack":
+		switch m.Tag {
+		case "authack-unsigned":
+			// no ban, no penalty points: the connection is simply ended
+			if !s.st.Broken || s.st.Banit || o.Misbehave != 0 {
+				return fmt.Sprintf("an unsigned authack must end the connection without a ban: broken=%v banit=%v misbehave=%d", s.st.Broken, s.st.Banit, o.Misbehave)
+			}
+			if s.run && (s.ro.PeerHungUp || !(s.st.Why == "UnsignedAuthAck" || strings.HasPrefix(s.st.Why, "SendErr"))) {
+				return "an unsigned authack must make Run end the connection by itself (UnsignedAuthAck): why=" + s.st.Why
+			}
+		case "authack":
+			if !c.X.AuthAckGot {
+				return "a signed authack must set AuthAckGot"
+			}
+			if len(m.Nums) == 2 && m.Nums[0] == 1 && c.X.ChainSynchronized != (m.Nums[1] == 1) {
+				return "ChainSynchronized differs from the first payload byte"
+			}
+			if s.run && !s.ro.PeerHungUp {
+				return "a signed authack must not end the connection"
+			}
+		}
 	}
 	return ""
 }
@@ -552,19 +734,25 @@ func in0(xs []string, prefix string) bool {
 	return false
 }
 
-func (h *Harness) compareWire(cs Case, o Obs, replay map[string]interface{}) {
+func (h *Harness) compareWire(cs Case, s *stream, replay map[string]interface{}) {
 	r := h.r
+	o := s.o
 	hk, vr := "0", "1"
 	if cs.has("nover") {
 		vr = "0"
 	}
 	m := parseModel(h.o.MustAsk(fmt.Sprintf("f 1 %s %s %s %s", hk, vr, vlib.Hex(common.Magic[:]), vlib.Hex(cs.payload()))))
 	replay["model"] = m.RawRep
-	r.Hit("model:fetch:" + m.Kind + ":" + m.Tag)
-	fail := func(why string) {
-		r.TieFail("tie:fetch:"+m.Kind+":"+m.Tag, "FetchMessage: "+why+" (model: "+clip(m.RawRep)+"; real: "+o.Branch+" ban="+o.Ban+")", replay)
+	pre := ""
+	if s.run {
+		pre = "run:"
+	} else {
+		r.Hit("model:fetch:" + m.Kind + ":" + m.Tag)
 	}
-	st := h.rn.lastState
+	fail := func(why string) {
+		r.TieFail(pre+"tie:fetch:"+m.Kind+":"+m.Tag, "FetchMessage ["+s.name()+" stream]: "+why+" (model: "+clip(m.RawRep)+"; real: "+o.Branch+" ban="+o.Ban+")", replay)
+	}
+	st := s.st
 	switch m.Kind {
 	case "panic":
 		fail("model panics, real code does not")
@@ -580,6 +768,19 @@ func (h *Harness) compareWire(cs Case, o Obs, replay map[string]interface{}) {
 			return
 		}
 	case "ok":
+		if s.run {
+			// Run hands the fetched message on to its handler, which may refuse it for its own reasons:
+			// only FetchMessage's own reject reasons must not appear when the model accepts the framing
+			if m.Tag == "need-more" && o.Ban != "" {
+				fail("model waits for more bytes, Run banned the peer")
+				return
+			}
+			if m.Tag == "msg" && (o.Ban == "MsgBadChksum" || o.Ban == "MsgNoKey" || strings.HasPrefix(o.Ban, "Big-") && len(m.Blobs) > 0 && o.Ban == "Big-"+string(m.Blobs[0])) {
+				fail("model accepts the first message, Run refused its framing")
+				return
+			}
+			break
+		}
 		switch m.Tag {
 		case "need-more":
 			if !strings.HasPrefix(o.Branch, "fetched:0") || o.Ban != "" {
@@ -673,6 +874,9 @@ func main() {
 	for _, cs := range Corpus(e) {
 		h.One(cs)
 	}
+	// 1b. the consequence the in-progress count stands for: after a peer has abused a fresh header, an honest
+	//     peer's complete compact block for the same header must still be taken
+	h.wedgeScenario()
 	// 2. old-guard witnesses: the model with the pre-fix guards must panic / leak on them (keeps the
 	//    counterexample theorems tied to the oracle the harness uses)
 	h.oldWitnesses()
@@ -707,6 +911,45 @@ func main() {
 	h.finish(ruleText, explText, false)
 }
 
+// wedgeScenario: connection A (through the real Run) announces a fresh block as a compact block with one
+// unknown short id and answers the node's getblocktxn with a transaction that was not asked for - three
+// times (Net.MaxBlockAtOnce); A is not even penalised. Then connection B delivers the complete compact
+// block. The node must accept B's block (before the fix of ProcessBlockTxn the in-progress count stayed
+// at the limit: B was ignored with CmpctBlockMaxInProg and GetBlockData never asked for the block).
+func (h *Harness) wedgeScenario() {
+	sp := h.e.NextSpare()
+	if sp == nil {
+		return
+	}
+	hash := btc.NewSha2Hash(sp[:80])
+	txs := blockTxs(sp)
+	other := blockTxs(h.e.Blocks[104])[1]
+	cm := cmpctMsg(sp, 7, vint(1), [][]byte{{1, 2, 3, 4, 5, 6}}, vint(1), []prefilled{{vint(0), txs[0]}})
+	bt := cat(hash.Hash[:], vint(1), other)
+	var seq []Msg
+	for i := 0; i < int(common.CFG.Net.MaxBlockAtOnce); i++ {
+		seq = append(seq, Msg{"cmpctblock", H(cm)}, Msg{"blocktxn", H(bt)})
+	}
+	a := Case{Cmd: "ping", Pl: "0102030405060708", Pre: "cv2", Seq: seq, Note: "W:blocktxn-inprogress-wedge"}
+	_, roA, _ := h.rn.DoRun(a)
+	full := cmpctMsg(sp, 9, vint(0), nil, vint(1), []prefilled{{vint(0), txs[0]}})
+	b := Case{Cmd: "cmpctblock", Pl: H(full), Pre: "cv2", Note: "W:blocktxn-inprogress-wedge"}
+	oB, _, _ := h.rn.DoRun(b)
+	network.MutexRcv.Lock()
+	_, rcvd := network.ReceivedBlocks[hash.BIdx()]
+	network.MutexRcv.Unlock()
+	queued := len(network.NetBlocks)
+	housekeeping()
+	h.r.Eval("run:scenario", "wedge")
+	h.r.Hit("scenario:abused-header-then-honest-peer")
+	if !rcvd || queued == 0 {
+		h.r.PropFail("blocktxn-inprogress-wedge", fmt.Sprintf("after one connection sent cmpctblock + blocktxn(with a transaction that was not asked for) %d times for a fresh header (in-progress sum afterwards %d), a complete compact block for that header from another connection is not accepted (received=%v queued=%d ban=%q): the node can no longer fetch this block",
+			len(seq)/2, roA.InProgress, rcvd, queued, oB.Ban), map[string]interface{}{"case": a, "then": b})
+	} else {
+		h.r.TieOK()
+	}
+}
+
 func (h *Harness) oldWitnesses() {
 	type w struct{ cmd, pl, wantKind, wantLocks string; ntx int }
 	v82 := make([]byte, 82)
@@ -718,7 +961,8 @@ func (h *Harness) oldWitnesses() {
 		{"getblocktxn", H(cat(make([]byte, 32), vint(1), vintForm(1<<63, 9))), "panic", "-", 5},
 	}
 	for _, x := range ws {
-		m := parseModel(h.o.MustAsk(fmt.Sprintf("h 0 %s %d 0 0 %s", x.cmd, x.ntx, x.pl)))
+		req := fmt.Sprintf("h 0 %s %d 0 0 0 %s", x.cmd, x.ntx, x.pl)
+		m := parseModel(h.o.MustAsk(req))
 		if m.Kind != x.wantKind || m.Locks != x.wantLocks {
 			h.r.TieFail("oldmodel:"+x.cmd, "pre-fix model no longer reproduces the witness: "+m.RawRep, map[string]interface{}{"cmd": x.cmd, "pl": x.pl})
 		} else {
@@ -784,6 +1028,62 @@ func (h *Harness) boundaries(gen *Gen) {
 }
 
 func probe(e *Env, rn *Runner) {
+	if os.Getenv("C18_PROBE") == "run" {
+		// a few cases through the real Run, printed (development aid)
+		cases := []Case{
+			{Cmd: "ping", Pl: "0102030405060708", Note: "probe"},
+			{Cmd: "ping", Pl: "01020304050607", Note: "probe"},
+			{Cmd: "authack", Pl: "", Note: "probe"},
+			{Cmd: "authack", Pl: "01", Note: "probe"},
+			{Cmd: "authack", Pl: "01", Pre: "enc", Note: "probe"},
+			{Cmd: "authack", Pl: "01", Pre: "trusted", Note: "probe"},
+			{Cmd: "authack", Pl: "", Pre: "trusted", Note: "probe"},
+			{Cmd: "getmp", Pl: "00", Pre: "trusted", Note: "probe"},
+			{Cmd: "authack", Pl: "01", Pre: "nover", Note: "probe"},
+			{Cmd: "version", Pl: H(peerVersion(99999)), Pre: "nover", Note: "probe"},
+			{Cmd: "inv", Pl: "00", Note: "probe"},
+		}
+		for _, cs := range cases {
+			o, ro, _ := rn.DoRun(cs)
+			b, _ := json.Marshal(o)
+			b2, _ := json.Marshal(ro)
+			fmt.Println(cs.Cmd, cs.Pl, cs.Pre, string(b), string(b2))
+		}
+		return
+	}
+	if os.Getenv("C18_PROBE") == "inprog" {
+		sp := e.NextSpare()
+		hash := btc.NewSha2Hash(sp[:80])
+		txs := blockTxs(sp)
+		other := blockTxs(e.Blocks[104])[1]
+		cm := cmpctMsg(sp, 7, vint(1), [][]byte{{1, 2, 3, 4, 5, 6}}, vint(1), []prefilled{{vint(0), txs[0]}})
+		bt := cat(hash.Hash[:], vint(1), other)
+		inprog := func() uint32 {
+			network.MutexRcv.Lock()
+			defer network.MutexRcv.Unlock()
+			if b := network.BlocksToGet[hash.BIdx()]; b != nil {
+				return b.InProgress
+			}
+			return 99999
+		}
+		seq := []Msg{}
+		for i := 0; i < 3; i++ {
+			seq = append(seq, Msg{"cmpctblock", H(cm)}, Msg{"blocktxn", H(bt)})
+		}
+		o, ro, _ := rn.DoRun(Case{Cmd: "ping", Pl: "0102030405060708", Pre: "cv2", Seq: seq, Note: "probe"})
+		b, _ := json.Marshal(o)
+		b2, _ := json.Marshal(ro)
+		fmt.Println("attacker:", string(b), string(b2), "InProgress of the block now:", inprog())
+		// an honest peer now delivers the complete compact block
+		full := cmpctMsg(sp, 9, vint(0), nil, vint(1), []prefilled{{vint(0), txs[0]}})
+		o, ro, _ = rn.DoRun(Case{Cmd: "cmpctblock", Pl: H(full), Pre: "cv2", Note: "probe"})
+		b, _ = json.Marshal(o)
+		network.MutexRcv.Lock()
+		_, rcvd := network.ReceivedBlocks[hash.BIdx()]
+		network.MutexRcv.Unlock()
+		fmt.Println("honest:", string(b), "block received:", rcvd, "InProgress:", inprog(), "queued blocks:", len(network.NetBlocks))
+		return
+	}
 	for _, cs := range Corpus(e) {
 		o := rn.Do(cs)
 		if o.Panic != "" || len(o.Locks) > 0 || o.Hang || os.Getenv("C18_PROBE") == "all" {
